@@ -146,6 +146,15 @@ SliceOK(in, o) ==
     /\ o.inafter = in.bm                                 \* the input is left unchanged
 TraceSlice == IsEvent("slice") /\ SliceOK(Ev.in, Ev.out)
 
+\* Slice near the end of a bitmap of up to 2^31 bits (W * nw and to + W - 1 would leave TLC's integers: the bounds
+\* are stated with divisions instead)
+SliceBigOK(in, o) ==
+    /\ IsAsc(in.bm.ones) /\ \A j \in DOMAIN in.bm.ones : in.bm.ones[j] >= 0 /\ in.bm.ones[j] \div W < in.bm.nw
+    /\ 0 <= in.from /\ in.from <= in.to /\ in.to \div W + (IF in.to % W = 0 THEN 0 ELSE 1) <= in.bm.nw
+    /\ SameBM(o.bm, SliceD(S(in.bm), in.from, in.to))
+    /\ o.inafter = in.bm
+TraceSliceBig == IsEvent("slicebig") /\ SliceBigOK(Ev.in, Ev.out)
+
 \* ---- beyond the listed properties: the unexported select family (through the verif hooks) and Fmt
 SelSingleOK(in, o) ==
     /\ InOK(in.bm)
@@ -177,6 +186,6 @@ TraceFmt == IsEvent("fmt") /\ FmtOK(Ev.in, Ev.out)
 
 TraceInit == l = 1
 TraceNext == TraceMasks \/ TraceRank \/ TraceRankL \/ TraceSelect \/ TraceSelectL \/ TraceScan \/ TraceOf \/ TraceOfMany
-             \/ TraceToArray \/ TraceJoin \/ TraceJoinBig \/ TraceSlice \/ TraceSelSingle \/ TraceSelU64 \/ TraceFmt
+             \/ TraceToArray \/ TraceJoin \/ TraceJoinBig \/ TraceSlice \/ TraceSliceBig \/ TraceSelSingle \/ TraceSelU64 \/ TraceFmt
 TraceSpec == TraceInit /\ [][TraceNext]_l
 ============================================================================
